@@ -225,7 +225,7 @@ func (p *Program) CallGraph() *callgraph.Graph {
 func (p *Program) ModuleFuncs() []*ssa.Function {
 	var out []*ssa.Function
 	for f := range p.AllFunctions() {
-		if f.Blocks == nil {
+		if f.Blocks == nil || InlinedAway[f] {
 			continue
 		}
 		if InModule(f) {
